@@ -377,7 +377,7 @@ def finding_sig(case, issues):
   return 'unexplained'
 
 def _watchdog(signum, frame):
-  raise InfraError('C10: evaluation of a generated block on the real code did not finish within 60 s')
+  raise leanio.MachineryError('C10: evaluation of a generated block on the real code did not finish within 60 s')
 
 def process(ck, cases, nvec):
   import signal
